@@ -152,20 +152,41 @@ theorem mergeCore_places (src : List (List Node)) (sp : Nat) (dest1 : List (List
         rw [List.getElem?_eq_none (by simp; omega)]
         rw [List.getElem?_eq_none (by omega)]
 
-/-- **equal subsets at the requested positions.**  For datasets of the same template and a request
-inside the source (`sp + nb ≤ |src|`), at any destination position — inside, at the end or beyond
-the end of the destination: `bufr_merge_dataset` returns `nb`, destination position `dp + i` holds
-source subset `sp + i`, and every destination subset outside `dp … dp+nb−1` is what it was -/
-theorem C14_merge_places (blank : List Node) (dest src : List (List Node)) (dp sp nb : Nat)
-    (hs : sp + nb ≤ src.length) :
-    (mergeDataset true blank dest src dp sp nb).1 = nb ∧
-    (∀ i, i < nb → (mergeDataset true blank dest src dp sp nb).2[dp + i]? = src[sp + i]?) ∧
-    (∀ j, j < dest.length → (j < dp ∨ dp + nb ≤ j) → (mergeDataset true blank dest src dp sp nb).2[j]? = dest[j]?) := by
+/-- the number of subsets `bufr_merge_dataset` copies: what was asked for, but no more than the
+source holds from `sp` on -/
+def mergeCount (srcLen sp nb : Nat) : Nat := min nb (srcLen - sp)
+
+theorem mergeDataset_nb1 (srcLen sp nb : Nat) :
+    (let nb0 : Int := if (nb : Int) > (srcLen : Int) then (srcLen : Int) else (nb : Int)
+     if sp > 0 ∧ nb0 > (srcLen : Int) - sp then (srcLen : Int) - sp else nb0) =
+    (if sp ≤ srcLen then ((mergeCount srcLen sp nb : Nat) : Int) else (srcLen : Int) - sp) := by
+  unfold mergeCount
+  simp only []
+  split <;> split <;> split <;> omega
+
+/-- **equal subsets at the requested positions, for every (destination position, source position,
+count) triple** with the source position inside the source.  For datasets of the same template, at
+any destination position — inside, at the end or beyond the end of the destination — and for any
+count, also one that runs past the end of the source: `bufr_merge_dataset` copies
+`m = min nb (|src| − sp)` subsets and returns `m`, destination position `dp + i` holds source
+subset `sp + i` for `i < m`, and every destination subset outside `dp … dp+m−1` is what it was.
+(Before the repair recorded as C14-merge-count-past-source the library copied `nb` "subsets", the
+ones past the end of the source as subsets without descriptors, over valid destination subsets.) -/
+theorem C14_merge_clamps (blank : List Node) (dest src : List (List Node)) (dp sp nb : Nat)
+    (hs : sp ≤ src.length) :
+    (mergeDataset true blank dest src dp sp nb).1 = mergeCount src.length sp nb ∧
+    (∀ i, i < mergeCount src.length sp nb → (mergeDataset true blank dest src dp sp nb).2[dp + i]? = src[sp + i]?) ∧
+    (∀ j, j < dest.length → (j < dp ∨ dp + mergeCount src.length sp nb ≤ j) →
+      (mergeDataset true blank dest src dp sp nb).2[j]? = dest[j]?) := by
   unfold mergeDataset
-  have hnb : ¬ ((nb : Int) > (src.length : Int)) := by omega
-  simp only [Bool.not_true, Bool.false_eq_true, if_false, hnb, Int.toNat_natCast]
-  have hneg : ¬ ((nb : Int) < 0) := by omega
-  simp only [hneg, if_false, true_and]
+  simp only [Bool.not_true, Bool.false_eq_true, if_false]
+  have h1 := mergeDataset_nb1 src.length sp nb
+  simp only [] at h1
+  rw [h1, if_pos hs]
+  generalize hm : mergeCount src.length sp nb = m
+  have hmle : sp + m ≤ src.length := by rw [← hm]; unfold mergeCount; omega
+  have hneg : ¬ ((m : Int) < 0) := by omega
+  simp only [hneg, if_false, Int.toNat_natCast, true_and]
   generalize hd1 : (if dp ≥ dest.length then dest ++ List.replicate (dp - dest.length + 1) blank else dest) = dest1
   have hdp : dp < dest1.length := by
     rw [← hd1]; split
@@ -175,16 +196,30 @@ theorem C14_merge_places (blank : List Node) (dest src : List (List Node)) (dp s
     intro j hj; rw [← hd1]; split
     · rw [List.getElem?_append_left hj]
     · rfl
-  obtain ⟨a, b, c⟩ := mergeCore_places src sp dest1 dp hdp nb hs
+  obtain ⟨a, b, c⟩ := mergeCore_places src sp dest1 dp hdp m hmle
   refine ⟨a, ?_⟩
   intro j hj hor
   rcases hor with h | h
   · rw [b j h, hpre j hj]
   · rw [c j h, hpre j hj]
 
+/-- the request inside the source (`sp + nb ≤ |src|`): exactly `nb` subsets -/
+theorem C14_merge_places (blank : List Node) (dest src : List (List Node)) (dp sp nb : Nat)
+    (hs : sp + nb ≤ src.length) :
+    (mergeDataset true blank dest src dp sp nb).1 = nb ∧
+    (∀ i, i < nb → (mergeDataset true blank dest src dp sp nb).2[dp + i]? = src[sp + i]?) ∧
+    (∀ j, j < dest.length → (j < dp ∨ dp + nb ≤ j) → (mergeDataset true blank dest src dp sp nb).2[j]? = dest[j]?) := by
+  have hm : mergeCount src.length sp nb = nb := by unfold mergeCount; omega
+  have := C14_merge_clamps blank dest src dp sp nb (by omega)
+  rw [hm] at this
+  exact this
+
 /-! ### Non-vacuity -/
 example : (⟨5, 2, 4⟩ : Range).slice [10, 20, 30, 40, 50] = [20, 30, 40] := by decide
 example : (mergeDataset true [] [[], [], []] [[{ desc := 1 }], [{ desc := 2 }]] 2 0 2).2 = [[], [], [{ desc := 1 }], [{ desc := 2 }]] := by
   decide
+-- a count that runs past the end of the source: one subset is copied, the destination's others stay
+example : mergeDataset true [] [[{ desc := 7 }], [{ desc := 8 }], [{ desc := 9 }]] [[{ desc := 1 }], [{ desc := 2 }]] 0 1 2 =
+    (1, [[{ desc := 2 }], [{ desc := 8 }], [{ desc := 9 }]]) := by decide
 
 end Bufr.C14
